@@ -158,7 +158,11 @@ class Degenerate:
             return mrow(*self.special_run(d))
         if k < 0.25:
             n = r.choice([0, 1, 1, 2, 3, 3, 4, 5])
-            return mrow(*[self.child(d) for _ in range(n)])
+            e = mrow(*[self.child(d) for _ in range(n)])
+            if r.random() < 0.06:
+                # attributes of the intent machinery on a row: 'arg' alone gives the row no right to stay when it has one child, 'intent' does
+                e.attrs[r.choice(["arg", "arg", "intent"])] = r.choice(["a", "n", "base"])
+            return e
         if k < 0.45:
             tag = r.choice(TWO)
             return N(tag, [self.child(d, tag != "mfrac"), self.child(d, True)])
